@@ -1687,6 +1687,7 @@ package asm
 //@   assigns nothing
 //@   loop 1 invariant true
 //@   loop 1 modifies line
+//@   loop 2 invariant 0 <= loopcount(2) && loopcount(2) <= len(d)
 //@   loop 2 invariant len(xb) == ite(loopcount(2) == 0, 0, 6*loopcount(2)-1)
 //@   loop 2 invariant all(j, int, 0 <= j && j < loopcount(2) ==> xb[6*j] == 48)
 //@   loop 2 invariant all(j, int, 0 <= j && j < loopcount(2) ==> xb[6*j+1] == 120)
